@@ -6,7 +6,7 @@ import (
 )
 
 func (x *Exec) guardCheck(st *State, pv Ptr, pos token.Pos, what string) {}
-func (x *Exec) ghostEvent(st *State, kind, site string)                 {}
-func (x *Exec) chanClose(st *State, ch Value, pos token.Pos)            {}
-func (x *Exec) checkGhostPost(st *State, pos token.Pos)                 {}
-func (c *evalCtx) ghostCall(name string, n *ast.CallExpr) (Value, bool) { return nil, false }
+func (x *Exec) ghostEvent(st *State, kind, site string)                  {}
+func (x *Exec) chanClose(st *State, ch Value, pos token.Pos)             {}
+func (x *Exec) checkGhostPost(st *State, pos token.Pos)                  {}
+func (c *evalCtx) ghostCall(name string, n *ast.CallExpr) (Value, bool)  { return nil, false }
